@@ -466,7 +466,26 @@ func (m *Model) ruleCOLL(r *Results) {
 					r.bad(rule, ck, pos, "bucket method touches collection-owned table %s; only the purge statement and the min-expiry query may be bucket-wide", u.Table)
 				}
 			default:
-				r.bad(rule, ck, pos, "statement on collection-owned table %s outside any collection or bucket method", u.Table)
+				// a helper function: decide it in the context of each of its callers
+				callers := m.staticCallersOf(rootOf(s.Fn))
+				if len(callers) == 0 {
+					r.bad(rule, ck, pos, "statement on collection-owned table %s outside any collection or bucket method", u.Table)
+					break
+				}
+				for _, cs := range callers {
+					if m.methodOwner(cs.Parent()) != m.A.CollectionType {
+						r.bad(rule, ck+" via "+m.declName(cs.Parent()), m.instrPos(cs), "helper with a statement on collection-owned table %s is called from outside a collection method", u.Table)
+						continue
+					}
+					s.evalFrame = m.closureFrame(cs.Parent()).inline(cs, rootOf(s.Fn))
+					ok, why := m.useConstrained(s, u, uses, idFields, 0)
+					s.evalFrame = nil
+					if ok {
+						r.ok(rule, ck+" via "+m.declName(cs.Parent()), pos, "%s", why)
+					} else {
+						r.bad(rule, ck+" via "+m.declName(cs.Parent()), pos, "helper statement ranges over %s without being restricted to the calling collection: %s", u.Table, why)
+					}
+				}
 			}
 		}
 	})
@@ -657,17 +676,87 @@ type docWrite struct {
 	Variant *Variant
 	Stmt    *sqlp.Stmt
 	W       *WriteInfo
+	// a write unit may consist of several UPDATE statements of the same row issued by one
+	// function (one UPDATE split in two): Parts lists their sites, ColSite says which site
+	// assigns which column
+	Parts   []*SQLSite
+	ColSite map[string]*SQLSite
+}
+
+// siteFor returns the site whose arguments bind the expression assigned to col.
+func (dw *docWrite) siteFor(col string) *SQLSite {
+	if s, ok := dw.ColSite[col]; ok {
+		return s
+	}
+	return dw.Site
+}
+
+func whereSignature(st *sqlp.Stmt) string {
+	var cols []string
+	for _, c := range sqlp.Conjuncts(st.Where) {
+		if c.Kind == sqlp.EBinary && c.Op == "=" {
+			if c.Args[0].Kind == sqlp.EColumn && c.Args[1].Kind == sqlp.EParam {
+				cols = append(cols, lower(c.Args[0].Name))
+				continue
+			}
+			if c.Args[1].Kind == sqlp.EColumn && c.Args[0].Kind == sqlp.EParam {
+				cols = append(cols, lower(c.Args[1].Name))
+				continue
+			}
+		}
+		cols = append(cols, c.String())
+	}
+	sort.Strings(cols)
+	return strings.Join(cols, ",")
 }
 
 func (m *Model) docWrites() []*docWrite {
+	if m.docWriteCache != nil {
+		return m.docWriteCache
+	}
 	var out []*docWrite
 	m.eachStmt(false, func(s *SQLSite, v *Variant, st *sqlp.Stmt) {
 		if !isDML(st) || lower(st.Table) != "documents" || st.Kind == sqlp.SDelete {
 			return
 		}
-		out = append(out, &docWrite{s, v, st, writeInfo(st)})
+		out = append(out, &docWrite{Site: s, Variant: v, Stmt: st, W: writeInfo(st), Parts: []*SQLSite{s}, ColSite: map[string]*SQLSite{}})
 	})
-	return out
+	// merge single-variant UPDATEs of one function that address the row by the same key columns
+	var merged []*docWrite
+	used := map[*docWrite]bool{}
+	for i, a := range out {
+		if used[a] {
+			continue
+		}
+		if a.Stmt.Kind != sqlp.SUpdate || len(a.Site.Variants) != 1 {
+			merged = append(merged, a)
+			continue
+		}
+		group := []*docWrite{a}
+		for _, b := range out[i+1:] {
+			if !used[b] && b.Stmt.Kind == sqlp.SUpdate && len(b.Site.Variants) == 1 && b.Site.Fn == a.Site.Fn && b.Site != a.Site && whereSignature(b.Stmt) == whereSignature(a.Stmt) {
+				group = append(group, b)
+				used[b] = true
+			}
+		}
+		if len(group) == 1 {
+			merged = append(merged, a)
+			continue
+		}
+		mw := &docWrite{Site: a.Site, Variant: a.Variant, Stmt: a.Stmt, ColSite: map[string]*SQLSite{}}
+		w := &WriteInfo{Table: a.W.Table, Kind: a.W.Kind, Update: map[string]*sqlp.Expr{}, Where: a.W.Where}
+		for _, g := range group {
+			mw.Parts = append(mw.Parts, g.Site)
+			for c, e := range g.W.Update {
+				w.Update[c] = e
+				mw.ColSite[c] = g.Site
+			}
+		}
+		mw.W = w
+		merged = append(merged, mw)
+	}
+	m.docWriteCache = merged
+	return merged
 }
 
 // assignedInSameFunc: is column col assigned by another documents UPDATE in the same function?
@@ -1135,4 +1224,17 @@ func (m *Model) ruleXATTRCARRY(r *Results) {
 		}
 	}
 	r.floor(rule, 5)
+}
+
+// staticCallersOf lists the call instructions that statically call fn.
+func (m *Model) staticCallersOf(fn *ssa.Function) []ssa.CallInstruction {
+	var out []ssa.CallInstruction
+	for _, g := range m.Funcs {
+		m.eachCall(g, func(c ssa.CallInstruction) {
+			if c.Common().StaticCallee() == fn {
+				out = append(out, c)
+			}
+		})
+	}
+	return out
 }
